@@ -18,6 +18,9 @@
 //  3. Everything is logged as BigNat limbs; TLC validates the trace against
 //     spec/rhp/ContractsTrace.tla (post-conditions of ContractRules.tla, and the transcribed
 //     consensus rules must agree with every real verdict). rhp/v2 / rhp/v3 lines: tax equation.
+//     3b. Admission (spec/rhp/Admission.tla, adm.go): TLC enumerates requests on both sides of every gate of the
+//     admission rules of the RPC requests; each is realised on a real lineage, the real Validate method is
+//     asked, and whatever it admits goes through the real constructor to the real consensus validation.
 //  4. A rejected line is re-executed on the real code; only a reproduced line becomes a VIOLATION.
 package main
 
@@ -154,6 +157,7 @@ type seqCase struct {
 	Seed int64    `json:"seed"`
 	Sk   []skOp   `json:"sk"`
 	Line int      `json:"line,omitempty"` // v1: line number within the v1 batch
+	Adm  *admPlan `json:"adm,omitempty"`  // adm: the admission lineage
 	Msgs []string `json:"messages,omitempty"`
 	Ev   any      `json:"event,omitempty"`
 }
@@ -161,6 +165,58 @@ type seqCase struct {
 func v1Line(env *v1env, seed int64, i int) ev {
 	r := rand.New(rand.NewSource(seed*7368787 + int64(i)*104729 + 3))
 	return env.line(r, i%5)
+}
+
+// runModelChecks: the TLC runs that only concern the models (a failure ends the run as a spec bug, exit 2).
+func runModelChecks(c *vlib.Ctx, cov map[string]int64) {
+	// 1. skeleton model: exhaustive over the abstract state space
+	mc := c.MustTLC(vlib.TLCOpts{SpecDirs: []string{specDir}, Module: "Contracts", Config: "ContractsMC.cfg", Workers: 4})
+	cov["skeleton_model_states"] = mc.Distinct
+
+	// 1b. design level: the constructors and cost functions transcribed over BigNat, every lineage of the
+	// plan for all small parameter combinations: no underflow, post-conditions, consensus rules accept
+	designCfg := "ContractsDesign.cfg"
+	if c.Thorough {
+		designCfg = "ContractsDesign3.cfg"
+	}
+	ds := c.MustTLC(vlib.TLCOpts{SpecDirs: []string{specDir}, Module: "ContractsDesign", Config: designCfg, Workers: 8, Timeout: 20 * time.Minute})
+	cov["design_model_states"] = ds.Distinct
+	cov["design_model_steps"] = ds.Generated
+	if ds.Generated < 2000 {
+		c.Fatal("vacuity: design model explored only %d steps", ds.Generated)
+	}
+
+	// 1c. design level, capacity bookkeeping: NewContract, appends / frees of 1..3 sectors in every order, then a
+	// renewal / refresh: capacity never decreases, filesize stays within it, every revision passes the
+	// transcribed consensus rules; and the plan really contains frees followed by smaller appends
+	dz := c.MustTLC(vlib.TLCOpts{SpecDirs: []string{specDir}, Module: "ContractsDesign", Config: "ContractsDesignSizes.cfg", Workers: 8, Timeout: 10 * time.Minute})
+	cov["design_model_sizes_states"] = dz.Distinct
+	cov["design_model_sizes_steps"] = dz.Generated
+	if dz.Generated < 3000 {
+		c.Fatal("vacuity: design model (sizes) explored only %d steps", dz.Generated)
+	}
+	wz, err := c.TLC(vlib.TLCOpts{SpecDirs: []string{specDir}, Module: "ContractsDesign", Config: "ContractsDesignSizesReach.cfg", Workers: 4, NoCount: true, Timeout: 10 * time.Minute})
+	if err != nil {
+		c.Fatal("design model (sizes) reachability: %v", err)
+	}
+	if wz.Violated != "NeverPartialRefill" {
+		c.Fatal("vacuity: the design model (sizes) has no append of fewer sectors than were freed (TLC did not refute NeverPartialRefill: %q)\n%s", wz.Violated, vlib.Tail(wz.Out, 1200))
+	}
+
+}
+
+// admGates: every gate of the request Validate methods of rhp/v4/validation.go that concern the contract
+// constructors (the model must have cases at each, and the real Validate must have refused at each).
+var admGates = map[string][]string{
+	"form":      {"prices", "fee", "basis", "inputs", "proof-height", "proof-height-max", "duration", "allowance-zero", "collateral", "allowance-min"},
+	"renew":     {"prices", "fee", "basis", "proof-height-existing", "proof-height", "proof-height-max", "duration", "allowance-zero", "collateral", "allowance-min"},
+	"refreshP":  {"prices", "fee", "basis", "proof-height-existing", "allowance-zero", "allowance-min", "collateral"},
+	"refreshF":  {"prices", "fee", "basis", "proof-height-existing", "allowance-zero", "allowance-min", "collateral"},
+	"append":    {"prices", "empty", "batch"},
+	"free":      {"prices", "batch", "index", "duplicate"},
+	"roots":     {"prices", "length-zero", "range", "batch"},
+	"fund":      {"contract-id", "signature", "empty", "batch", "account", "amount"},
+	"replenish": {"contract-id", "signature", "empty", "batch", "target", "account"},
 }
 
 // sortSkeletons: TLC's workers print in no fixed order; sort, so that a seed always yields the same run.
@@ -202,8 +258,16 @@ func replay(c *vlib.Ctx) {
 	}
 	var events []ev
 	switch f.Case.Kind {
-	case "seq":
-		s := runSequence(f.Case.Idx, f.Case.Sk, f.Case.Seed)
+	case "seq", "adm":
+		var s *seqRun
+		if f.Case.Kind == "adm" {
+			if f.Case.Adm == nil {
+				c.Fatal("replay: admission case without its plan")
+			}
+			s = runAdmission(f.Case.Idx, f.Case.Adm, f.Case.Seed)
+		} else {
+			s = runSequence(f.Case.Idx, f.Case.Sk, f.Case.Seed)
+		}
 		for _, m := range s.infra {
 			c.Infra("%s", m)
 		}
@@ -223,6 +287,10 @@ func replay(c *vlib.Ctx) {
 		e := events[ln-1]
 		for _, m := range msgs {
 			f.Case.Msgs, f.Case.Ev = msgs, normalise(e)
+			if strings.HasPrefix(m, "case:") || strings.HasPrefix(m, "probe:") {
+				c.Infra("line %d: %s", ln, m)
+				continue
+			}
 			c.Violation(evKind(e)+":"+slug(m), fmt.Sprintf("%s: %s", evKind(e), m), f.Case)
 		}
 	}
@@ -243,40 +311,16 @@ func main() {
 	c.Assume("signatures, element proofs and key continuity are produced honestly by the harness (real signing code, real accumulator); the transcribed consensus rules cover amounts, sizes, heights and revision numbers")
 	c.Assume("magnitudes: prices < 2^70, allowances/collateral < 2^110, sector batches <= 3*2^15, durations < 2^17 blocks: no Currency overflow inside the constructors or Validate (overflow there panics by design of types.Currency)")
 	c.Assume("usage formulas checked are those documented on HostPrices (per byte per block, per 4 KiB moved, per sector freed)")
+	c.Assume("admission: the Validate methods of rhp/v4/validation.go are the host-side validation; revision requests (append, free, roots, fund, replenish) are only issued against a contract that is still revisable (the host looks the contract up and checks its proof height separately); challenge signatures are honest")
 
-	// 1. skeleton model: exhaustive over the abstract state space
-	mc := c.MustTLC(vlib.TLCOpts{SpecDirs: []string{specDir}, Module: "Contracts", Config: "ContractsMC.cfg", Workers: 4})
-	c.Cov("skeleton_model_states", mc.Distinct)
-
-	// 1b. design level: the constructors and cost functions transcribed over BigNat, every lineage of the
-	// plan for all small parameter combinations: no underflow, post-conditions, consensus rules accept
-	designCfg := "ContractsDesign.cfg"
-	if c.Thorough {
-		designCfg = "ContractsDesign3.cfg"
-	}
-	ds := c.MustTLC(vlib.TLCOpts{SpecDirs: []string{specDir}, Module: "ContractsDesign", Config: designCfg, Workers: 8, Timeout: 20 * time.Minute})
-	c.Cov("design_model_states", ds.Distinct)
-	c.Cov("design_model_steps", ds.Generated)
-	if ds.Generated < 2000 {
-		c.Fatal("vacuity: design model explored only %d steps", ds.Generated)
-	}
-
-	// 1c. design level, capacity bookkeeping: NewContract, appends / frees of 1..3 sectors in every order, then a
-	// renewal / refresh: capacity never decreases, filesize stays within it, every revision passes the
-	// transcribed consensus rules; and the plan really contains frees followed by smaller appends
-	dz := c.MustTLC(vlib.TLCOpts{SpecDirs: []string{specDir}, Module: "ContractsDesign", Config: "ContractsDesignSizes.cfg", Workers: 8, Timeout: 10 * time.Minute})
-	c.Cov("design_model_sizes_states", dz.Distinct)
-	c.Cov("design_model_sizes_steps", dz.Generated)
-	if dz.Generated < 3000 {
-		c.Fatal("vacuity: design model (sizes) explored only %d steps", dz.Generated)
-	}
-	wz, err := c.TLC(vlib.TLCOpts{SpecDirs: []string{specDir}, Module: "ContractsDesign", Config: "ContractsDesignSizesReach.cfg", Workers: 4, NoCount: true, Timeout: 10 * time.Minute})
-	if err != nil {
-		c.Fatal("design model (sizes) reachability: %v", err)
-	}
-	if wz.Violated != "NeverPartialRefill" {
-		c.Fatal("vacuity: the design model (sizes) has no append of fewer sectors than were freed (TLC did not refute NeverPartialRefill: %q)\n%s", wz.Violated, vlib.Tail(wz.Out, 1200))
-	}
+	// 1. the model-only runs go on in the background while the skeletons are generated and executed
+	var modelRuns sync.WaitGroup
+	modelCov := map[string]int64{}
+	modelRuns.Add(1)
+	go func() {
+		defer modelRuns.Done()
+		runModelChecks(c, modelCov)
+	}()
 
 	// 2. skeletons: exhaustive short ones + seeded sample of long ones
 	seen := map[string]bool{}
@@ -349,9 +393,53 @@ func main() {
 		c.Fatal("vacuity: only %d enumerated and %d simulated skeletons", nEnum, len(simSk))
 	}
 
+	// 2c. admission cases: requests on both sides of every gate of the admission rules, with the expected gate
+	ad := c.MustTLC(vlib.TLCOpts{SpecDirs: []string{specDir}, Module: "Admission", Config: "Admission.cfg", Workers: 4})
+	var admCases []admCase
+	admSeen := map[string]bool{}
+	modelGates := map[string]int{}
+	for _, ln := range ad.Lines {
+		if !strings.HasPrefix(ln, "AD ") {
+			continue
+		}
+		js := vlib.UnquoteTLA(strings.TrimPrefix(ln, "AD "))
+		if admSeen[js] {
+			continue
+		}
+		admSeen[js] = true
+		var k admCase
+		if err := json.Unmarshal([]byte(js), &k); err != nil {
+			c.Fatal("admission case %q: %v", js, err)
+		}
+		k["_js"] = js
+		admCases = append(admCases, k)
+	}
+	sort.Slice(admCases, func(i, j int) bool { return admCases[i]["_js"].(string) < admCases[j]["_js"].(string) })
+	for _, k := range admCases {
+		delete(k, "_js")
+		modelGates[ks(k, "rpc")+"/"+ks(k, "gate")]++
+	}
+	for rpc, gates := range admGates {
+		for _, g := range append([]string{"ok"}, gates...) {
+			if modelGates[rpc+"/"+g] == 0 {
+				c.Fatal("vacuity: the admission model has no %s case at gate %q", rpc, g)
+			}
+		}
+	}
+	plans := admPlans(admCases, c.Pick(3, 24))
+	c.Cov("admission_cases_model", len(admCases))
+	c.Cov("admission_cases_model_by_gate", modelGates)
+	c.Cov("admission_lineages", len(plans))
+
 	// 3. execute on the real code
 	t0 := time.Now()
-	runs := make([]*seqRun, len(skeletons))
+	runs := make([]*seqRun, len(skeletons)+len(plans))
+	runOne := func(i int) *seqRun {
+		if i < len(skeletons) {
+			return runSequence(i, skeletons[i], c.Seed)
+		}
+		return runAdmission(i, plans[i-len(skeletons)], c.Seed)
+	}
 	var wg sync.WaitGroup
 	jobs := make(chan int)
 	for w := 0; w < 8; w++ {
@@ -359,11 +447,11 @@ func main() {
 		go func() {
 			defer wg.Done()
 			for i := range jobs {
-				runs[i] = runSequence(i, skeletons[i], c.Seed)
+				runs[i] = runOne(i)
 			}
 		}()
 	}
-	for i := range skeletons {
+	for i := range runs {
 		jobs <- i
 	}
 	close(jobs)
@@ -426,6 +514,10 @@ func main() {
 				a["ro"] = vlib.Limbs(new(big.Int).Add(vlib.FromLimbs(a["ro"].([]int)), big.NewInt(1)))
 				break
 			}
+			if v == "adm" && e["ev"] == "adm" && e["admitted"] == false && e["vpanic"] == false {
+				e["admitted"] = true
+				break
+			}
 			if v == "cap" && e["ev"] == "rev" && e["err"] == false && e["op"] == "append" {
 				a := e["after"].(ev)
 				a["cap"] = vlib.Limbs(new(big.Int).Add(vlib.FromLimbs(a["cap"].([]int)), big.NewInt(1<<22)))
@@ -441,6 +533,11 @@ func main() {
 				break
 			}
 		}
+	}
+
+	modelRuns.Wait()
+	for k, v := range modelCov {
+		c.Cov(k, v)
 	}
 
 	// 4. TLC validates the trace
@@ -479,8 +576,11 @@ func main() {
 				continue
 			}
 			cs.Kind, cs.Idx, cs.Sk = "seq", runs[si].idx, runs[si].sk
+			if runs[si].adm != nil {
+				cs.Kind, cs.Adm = "adm", runs[si].adm
+			}
 			if rerun[si] == nil {
-				rerun[si] = runSequence(runs[si].idx, runs[si].sk, c.Seed)
+				rerun[si] = runOne(runs[si].idx)
 			}
 			off := ln - startOfSeq[runs[si].idx]
 			if off < len(rerun[si].events) {
@@ -495,6 +595,11 @@ func main() {
 			if strings.HasPrefix(m, "probe:") {
 				// the transcription of the consensus rules is wrong (or consensus is): not a C17 verdict
 				c.Infra("line %d: %s: %v", ln, m, e["what"])
+				continue
+			}
+			if strings.HasPrefix(m, "case:") {
+				// the harness did not build the request the model chose: not a C17 verdict
+				c.Infra("line %d: %s: %v", ln, m, e["kase"])
 				continue
 			}
 			c.Violation(evKind(e)+":"+slug(m), fmt.Sprintf("%s: %s (line %d)", evKind(e), m, ln), cs)
@@ -520,6 +625,7 @@ func main() {
 	c.Cov("requests_passing_real_validate", st.validated)
 	c.Cov("real_blocks_mined", st.blocks)
 	c.Cov("sequences_stopped_early", st.aborted)
+	c.Cov("admission_requests_by_rpc_gate_verdict", st.adm)
 	c.Cov("consensus_rule_probes", st.probes)
 	c.Cov("consensus_rule_probes_accepted", st.probesAccepted)
 	c.Cov("v1_lines", nV1)
@@ -578,6 +684,23 @@ func main() {
 		}
 		if st.sizeChecks < 3*nSizes {
 			c.Infra("vacuity: only %d operations were checked against the model's sectors stored / of capacity", st.sizeChecks)
+		}
+		// admission: both sides of every gate were put to the real Validate, and what it admitted reached the
+		// real consensus code
+		for rpc, gates := range admGates {
+			if st.adm[rpc+"/ok/admitted"] == 0 || st.adm[rpc+"/admitted-accepted-by-consensus"] == 0 {
+				c.Infra("vacuity: no %s request was admitted by Validate and accepted by consensus (%d / %d)", rpc, st.adm[rpc+"/ok/admitted"], st.adm[rpc+"/admitted-accepted-by-consensus"])
+			}
+			for _, g := range gates {
+				if st.adm[rpc+"/"+g+"/refused"] == 0 {
+					c.Infra("vacuity: no %s request was refused at gate %q", rpc, g)
+				}
+			}
+		}
+		for key, n := range modelGates {
+			if st.adm[key+"/admitted"]+st.adm[key+"/refused"] < n {
+				c.Infra("vacuity: admission cases %s: %d in the model, only %d executed per repetition", key, n, st.adm[key+"/admitted"]+st.adm[key+"/refused"])
+			}
 		}
 		if st.okRev < minOps || st.errRev < minOps {
 			c.Infra("vacuity: %d successful and %d cleanly failing revisions", st.okRev, st.errRev)
